@@ -63,7 +63,7 @@ def run(ctx):
     ctx.not_decided = "parse(print(x)) == x; that printing uses the canonical form; behaviour of multibase/ed25519 dependencies"
     ctx.rule_text = "PANIC(entries, empty review table) + REQ(shared constants)"
     review = Review([])
-    fns, scoped = panic.run_panic(ctx, ENTRIES, lambda f: True, review, "c21", floor_fns=14, floor_sources=0)
+    fns, scoped = panic.run_panic(ctx, ENTRIES, lambda f: True, review, "c21", floor_fns=9, floor_sources=0)
     ctx.sample({"parser closure": sorted(f["key"] for f in fns)[:40]})
 
     def one(p):
